@@ -53,3 +53,8 @@ ENTRIES += [
     B('forbidden-host-chars-authority-only', "FORBIDDEN_HOSTNAME_CHARS = frozenset('#%/:?@[\\\\] ')", "FORBIDDEN_HOSTNAME_CHARS = frozenset('%:@[\\\\] ')", 'C10-D1'),
     N('forbidden-host-chars-extended', "FORBIDDEN_HOSTNAME_CHARS = frozenset('#%/:?@[\\\\] ')", "FORBIDDEN_HOSTNAME_CHARS = frozenset(' #%/:?@[\\\\]^|')"),
 ]
+
+ENTRIES += [
+    B('ipv4-octet-bound-off-by-one', "    elif num_decimals == 3:\n", "    elif num_decimals == 3:\n        if any(parse_ipv4_int(part) >= 255 for part in address.split('.')):\n            raise ValueError('IPv4 address part out of range')\n", 'C10-D1'),
+    N('ipv4-octet-bound-exact', "    elif num_decimals == 3:\n", "    elif num_decimals == 3:\n        if any(parse_ipv4_int(part) > 255 for part in address.split('.')):\n            raise ValueError('IPv4 address part out of range')\n"),
+]
